@@ -72,7 +72,10 @@ def replay_product(case):
     try:
         with mock.patch('numpy.random.rand', side_effect=fake_rand):
             samples, probs = qc.sampling(t, meas, len(rows))
+        if len(calls) != 1:
+            raise _Unbound()
     except _Unbound:
+        # the sampler draws its variates differently (e.g. numpy.random.random_sample): the prediction clause is not bound
         return [('@unbound', 'variates not drawn by one numpy.random.rand(samples, sites) call')]
     except Exception as e:
         return [('sampling:product:exception:%s' % type(e).__name__, 'sampling raised %r (n=%d)' % (e, n))]
@@ -97,9 +100,12 @@ def replay_product(case):
     want2 = sorted(set(rows2))
     freq2 = [rows2.count(r) / len(rows2) for r in want2]
     t.cores[k0] = t.cores[k0][:, ::-1, :, :].copy()
+    calls.clear()
     try:
         with mock.patch('numpy.random.rand', side_effect=fake_rand):
             s2, p2 = qc.sampling(t, meas, len(rows))
+        if len(calls) != 1:
+            raise _Unbound()
     except _Unbound:
         return []
     except Exception as e:
